@@ -196,6 +196,27 @@ func (p *Prog) Func(name string) *ssa.Function {
 			return f
 		}
 	}
+	// the same function under another form of declaration: a method with a value or a pointer
+	// receiver, or a package-level function of the same name ("(pkg.T).m", "(*pkg.T).m", "pkg.m")
+	if strings.HasPrefix(name, "(") {
+		if i := strings.Index(name, ")."); i > 0 {
+			recv, meth := strings.TrimPrefix(name[1:i], "*"), name[i+2:]
+			pkg := recv
+			if j := strings.LastIndex(recv, "."); j >= 0 {
+				pkg = recv[:j]
+			}
+			for _, alt := range []string{"(" + recv + ")." + meth, "(*" + recv + ")." + meth, pkg + "." + meth} {
+				if alt == name {
+					continue
+				}
+				for _, f := range p.Funcs {
+					if FuncName(f) == alt {
+						return f
+					}
+				}
+			}
+		}
+	}
 	return nil
 }
 
